@@ -182,10 +182,11 @@ Inductive own_eff (g : gcfg) (nw : Z) (e : event) (old new : tstate) : Prop :=
 | OBigRead t : e = EData t KBig -> pcs old = PBody true -> paused old = false -> new = big_read_ts old nw -> own_eff g nw e old new
 | OBigPause t : e = EData t KBig -> pcs old = PBody false -> paused old = false -> latched old <> Some FSockRead ->
     new = big_pause_ts old -> own_eff g nw e old new
-| OEnd t : e = EData t KEnd -> pcs old = PBody true -> new = done_ts old -> own_eff g nw e old new
+| OEnd t r : e = EData t KEnd -> pcs old = PBody r -> paused old = false -> new = ended_ts old r -> own_eff g nw e old new
 | ORead t : e = ERead t -> pcs old = PBody false -> latched old = None -> new = read_ts old nw -> own_eff g nw e old new
-| OReadFail t f : e = ERead t -> pcs old = PBody false -> latched old = Some f -> new = failed old f nw -> own_eff g nw e old new
-| OCancel t : e = ECancel t -> live (pcs old) = true -> new = failed old FCancelled nw -> own_eff g nw e old new
+| OReadFail t f : e = ERead t -> pcs old = PBody false \/ pcs old = PRecv -> latched old = Some f -> new = failed old f nw -> own_eff g nw e old new
+| OReadRecv t : e = ERead t -> pcs old = PRecv -> latched old = None -> new = done_ts old -> own_eff g nw e old new
+| OCancel t : e = ECancel t -> pending (pcs old) = true -> new = failed old FCancelled nw -> own_eff g nw e old new
 | OFireFail t w d f : e = EFire t w -> deadline old w = Some d -> d <= nw ->
     (w = TTotal /\ f = FTotal /\ awaiting (pcs old) = true \/
      w = TConn /\ f = FConnect /\ connecting (pcs old) = true \/
@@ -223,6 +224,8 @@ Proof.
     break_match H; injection H as <-; simpl; rewrite ?upd_same, ?fail_own.
     + eapply OReadFail; eauto.
     + eapply ORead; eauto.
+    + eapply OReadFail; eauto.
+    + eapply OReadRecv; eauto.
   - (* ECancel *) break_match H. injection H as <-. rewrite fail_own. eapply OCancel; eauto.
   - (* EFire *)
     break_match H; injection H as <-; simpl; rewrite ?upd_same, ?fail_own;
